@@ -66,8 +66,19 @@ let do_coreaccept (txt : string) : string =
      | _ -> "REJECT")
   | _ -> "PARSE-ERR"
 
+(* allaccept: the premises of determinism_all (proofs/DeterminismAll.v): closed, and the source has no
+   empty case and no droppable forward.  For these programs Topo along the runs is a theorem. *)
+let do_allaccept (txt : string) : string =
+  match parse_string (explode txt) with
+  | POk p ->
+    (match typecheck p with
+     | Accept p' -> if in_fragment_b p' && all_src_b p then "ALL-IN" else (if in_fragment_b p' then "ALL-OUT-SRC" else "ALL-OUT-OPEN")
+     | _ -> "REJECT")
+  | _ -> "PARSE-ERR"
+
 let () =
   register "fjclass" do_fjclass;
+  register "allaccept" do_allaccept;
   register "coreaccept" do_coreaccept;
   register "initlin" do_initlin;
   List.iter (fun (nm, md) ->
